@@ -58,7 +58,7 @@ CHECKS = {
     text='Leaf parsers of every primitive run on symbolic adversarial text (free-form strings and date/time shapes with symbolic '
          'digits) through the XML, dict-document and HttpRpc entry points; every JSON kind in every slot; wrong nesting; symbolic '
          'xsi:type text. The solver explores all paths; any path ending in a non-Fault exception or a non-Client fault is a '
-         'counterexample. Concrete malformed documents per protocol (15 generic request kinds, 40 protocol-specific hostile documents, prefix truncations, auxiliary-method requests) go through the real parsers and the WSGI transport.',
+         'counterexample. Concrete malformed documents per protocol (15 generic request kinds, about 100 protocol-specific hostile documents (XML, SOAP 1.1, SOAP 1.2, JSON, YAML, MessagePack, and XML requests answered through HttpRpc / JSON), prefix truncations, auxiliary-method requests) go through the real parsers and the WSGI transport.',
     note='The byte-level parsers (lxml, json, yaml, msgpack) are C code: random bytes / all prefix truncations are outside the solver '
          'part; the concrete malformed documents are enumeration, labelled as such. Text length <= 6 (plus length-guard boundaries).'),
  'C14': dict(
